@@ -77,7 +77,7 @@ TEnumerator == LET r == Facts[l] IN
      IN /\ Judge(common \o units \o sys)
         /\ seenAbbr' = [seenAbbr EXCEPT ![T] = @ \cup (IF r.has_abbr THEN {r.abbr} ELSE {})]
         /\ abbrOf' = abbrOf @@ (<<T, r.name>> :> (IF unit \/ T = "UnitSystem" THEN r.abbr ELSE r.norm))
-        /\ unitAff' = IF ok THEN unitAff @@ (<<T, r.name>> :> [mag |-> MagOf(sym), to |-> ToStd(T, sym)]) ELSE unitAff
+        /\ unitAff' = IF ok THEN unitAff @@ (<<T, r.name>> :> [mag |-> MagOf(sym), to |-> ToStd(T, sym), dim |-> DimOf(sym)]) ELSE unitAff
   /\ UNCHANGED <<enumOf, consistent>>
 
 TExtraKey == LET r == Facts[l] IN
@@ -158,6 +158,8 @@ TFinish == /\ l = Len(Facts) + 1 /\ l' = l + 1
                                          unit_table |-> [i \in 1..Len(keys) |->
                                             [type |-> keys[i][1], name |-> keys[i][2],
                                              mag |-> unitAff[keys[i]].mag,
+                                             dim |-> unitAff[keys[i]].dim,
+                                             std |-> keys[i][2] = enumOf[keys[i][1]].std,
                                              has_off |-> unitAff[keys[i]].to.has_off,
                                              off |-> IF unitAff[keys[i]].to.has_off
                                                      THEN BagSub(unitAff[keys[i]].to.off_bag, unitAff[keys[i]].mag)
